@@ -310,6 +310,7 @@ inline std::string KeyFromSite(const std::string& site) {
 int main(int argc, char** argv) {
     using namespace c18;
     verif::Args args = verif::Args::Parse(argc, argv);
+    const bool shard_replay = verif::ParseShardReplay(args);
     verif::Result res;
     res.tier = args.tier;
     res.seed = args.seed;
@@ -482,5 +483,5 @@ int main(int argc, char** argv) {
     res.AddSample("c18 0 23984 0 0 5 : opcode 5DB0 (mov #0,prpage...) family at pc 0x1000 with prpage=1");
     res.AddSample("c18 2 446 8 0 0 : MMIO write 0x0008 to +0x1BE (DMA channel selector), then every DMA window register is read");
     res.AddSample("c18 3 450 65535 9 17 : DMA with SRC_ADDR_HIGH=0xFFFF ...");
-    return res.Write(args.out.c_str()) ? 0 : 2;
+    return verif::Finish(args, res, shard_replay);
 }
